@@ -44,13 +44,13 @@ type cfZoneT struct {
 }
 
 type fakeCF struct {
-	mu      sync.Mutex
-	zones   []*cfZoneT
-	reqs    int
-	faults  map[int]bool
+	mu        sync.Mutex
+	zones     []*cfZoneT
+	reqs      int
+	faults    map[int]bool
 	faultSalt int
-	patches []string
-	badAuth bool
+	patches   []string
+	badAuth   bool
 }
 
 func (f *fakeCF) handle(w http.ResponseWriter, req *http.Request) {
